@@ -5,6 +5,7 @@ import AwsVerif.Proofs.C11.Cmp
 import AwsVerif.Proofs.C11.Access
 import AwsVerif.Proofs.C11.Rfc
 import AwsVerif.Proofs.C11.RfcTree
+import AwsVerif.Proofs.C11.Depth
 /-!
 C11 — JSON values survive serialise / parse; object access is consistent.
 
@@ -52,6 +53,36 @@ theorem c11_compare_duplicate_keys_witness (env : NumEnv) :
     compare env true (duplicate (.obj [([97], .num (.int 1)), ([97], .num (.int 2))]))
         (.obj [([97], .num (.int 1)), ([97], .num (.int 2))]) = false := by
   constructor <;> rfl
+
+/-- [A] Parse depth is balanced.  `parseValueS` keeps `input_buffer->depth` as state exactly as
+parse_array / parse_object do (`depth++` after the limit check, `depth--` at `success:`, also on the
+empty-container `goto success` path).  On every successful parse the counter leaves with the value
+it entered with, and the result is that of the nesting-parameter parser `parseValue`; the two accept
+the same texts.  So acceptance depends only on the true nesting depth (≤ CJSON_NESTING_LIMIT, the
+constant generated from cJSON.h) and never on how many sibling containers came before; the
+round-trip theorem holds verbatim for the state-carrying parser the driver runs. -/
+theorem c11_parse_depth_balanced (env : NumEnv) :
+    (∀ f d s v r d', parseValueS env f d s = some (v, r, d') → d' = d ∧ parseValue env f d s = some (v, r)) ∧
+    (∀ f d s, (parseValueS env f d s).isSome = (parseValue env f d s).isSome) ∧
+    (∀ s, parseTextS env s = parseText env s) ∧
+    (∀ fmt t, IntTree t → depth t ≤ Gen.CJSON_NESTING_LIMIT → parseTextS env (printText env fmt t) = some t) := by
+  refine ⟨?_, ?_, parseTextS_eq env, ?_⟩
+  · intro f d s v r d' h
+    rw [(depth_balanced_all env f).1 d s] at h
+    cases hp : parseValue env f d s with
+    | none => simp [hp, liftV] at h
+    | some p =>
+      obtain ⟨v0, r0⟩ := p
+      simp only [hp, liftV, Option.map_some, Option.some.injEq, Prod.mk.injEq] at h
+      obtain ⟨h1, h2, h3⟩ := h
+      subst h1 h2 h3
+      exact ⟨rfl, rfl⟩
+  · intro f d s
+    rw [(depth_balanced_all env f).1 d s]
+    cases parseValue env f d s <;> simp [liftV]
+  · intro fmt t h hd
+    rw [parseTextS_eq]
+    exact parseText_printText env fmt t h hd
 
 /-- The nesting limit is sharp: `[[…]]` one level deeper than the limit is printed but not read
 back (checked on the model for the generated constant by evaluation of a small instance of the
@@ -269,5 +300,10 @@ example : parseText env0
 
 example : parseText env0 [34, 92, 117, 68, 67, 48, 48, 34] = none := by rfl
 example : parseText env0 [91, 49, 44, 93] = none := by rfl
+
+/-- sibling empty containers do not use up the nesting budget: entered with the counter at limit-2,
+`[{},{},[]]` parses (its containers sit at limit-1) and the counter is back at limit-2 -/
+example : parseValueS env0 40 (Gen.CJSON_NESTING_LIMIT - 2) [91, 123, 125, 44, 123, 125, 44, 91, 93, 93] =
+    some (.arr [.obj [], .obj [], .arr []], [], Gen.CJSON_NESTING_LIMIT - 2) := by rfl
 
 end AwsVerif.Props.C11
